@@ -90,7 +90,11 @@ func parseRangeHeader(s string) (*ObjectRangeRequest, error) {
 		return nil, ErrorMessage(ErrInvalidRange, "multiple ranges not supported")
 	}
 
-	rnge := strings.TrimSpace(ranges[0])
+	// Optional whitespace is space and tab (strings.TrimSpace would also
+	// drop Unicode spaces, which make the header malformed):
+	trimOWS := func(s string) string { return strings.Trim(s, " \t") }
+
+	rnge := trimOWS(ranges[0])
 	if len(rnge) == 0 {
 		return nil, ErrInvalidRange
 	}
@@ -102,7 +106,7 @@ func parseRangeHeader(s string) (*ObjectRangeRequest, error) {
 
 	var o ObjectRangeRequest
 
-	start, end := strings.TrimSpace(rnge[:i]), strings.TrimSpace(rnge[i+1:])
+	start, end := trimOWS(rnge[:i]), trimOWS(rnge[i+1:])
 	if start == "" {
 		o.FromEnd = true
 
